@@ -166,10 +166,11 @@ def circleBdryGrid (cx cy r : K) (n j : Nat) : K × K :=
   let phi := two * Transc.pi * linOpen n j
   (r * Transc.cos phi + cx, r * Transc.sin phi + cy)
 
-/-- `SphereBoundary.sample_grid` (Fibonacci sphere), j = 0 … n−1; the code divides by `n − 1` -/
+/-- `SphereBoundary.sample_grid` (Fibonacci sphere), j = 0 … n−1; the code divides by `max(n − 1, 1)`
+    (since fix 62832b1; before: `n − 1`, i.e. 0/0 for a single point) -/
 def sphereBdryGrid (cx cy cz r : K) (n j : Nat) : K × K × K :=
   let golden := Transc.pi * (natK 3 - Transc.sqrt (natK 5))
-  let y := 1 - natK j / natK (n - 1) * two
+  let y := 1 - natK j / natK (max (n - 1) 1) * two
   let cr := Transc.sqrt (1 - y * y)
   let th := golden * natK j
   (cr * Transc.cos th * r + cx, y * r + cy, cr * Transc.sin th * r + cz)
@@ -320,8 +321,7 @@ def primGrid : Dom K → Env K → Nat → List (List K) → Option (List (Env K
     match c.f ρ, r.f ρ with
     | [cx, cy, cz], [rr] =>
       let box := if n > 10 then (sphereGridBox rr n).map (fun p => (p.1 + cx, p.2.1 + cy, p.2.2 + cz)) else []
-      if box.length = n then some (box.map fun p => [(v, [p.1, p.2.1, p.2.2])])
-      else if n < box.length then none      -- `sample_random_uniform(n = negative)` raises
+      if n ≤ box.length then some ((box.take n).map fun p => [(v, [p.1, p.2.1, p.2.2])])   -- fix 94ff128
       else
         let rnd := (topup.take (n - box.length)).filterMap fun
           | [u1, u2, u3] => some (sphereSample cx cy cz rr u1 u2 u3) | _ => none
@@ -356,8 +356,7 @@ def primGrid : Dom K → Env K → Nat → List (List K) → Option (List (Env K
   | .bdry (.sphere v c r), ρ, n, _ =>
     match c.f ρ, r.f ρ with
     | [cx, cy, cz], [rr] =>
-      if n = 1 then none    -- the code computes 0/0 (NaN); see design_notes/C01.md
-      else some ((List.range n).map fun j => let p := sphereBdryGrid cx cy cz rr n j; [(v, [p.1, p.2.1, p.2.2])])
+      some ((List.range n).map fun j => let p := sphereBdryGrid cx cy cz rr n j; [(v, [p.1, p.2.1, p.2.2])])
     | _, _ => none
   | _, _, _, _ => none
 
@@ -388,8 +387,8 @@ def insideRow (n : Nat) (prop : Nat → Nat → List α) (ok : α → Bool) : Na
     else insideRow n prop ok fuel (rd + 1) (nextReq req valid.length) (reqs ++ [m])
 
 /-- D.2 `_random_points_if_n_eq_1`: one proposal per parameter row and round; a row is (over)written
-    whenever its proposal is valid; stop when every row has been written once.  `k = 0` rows: returns
-    the empty list immediately. -/
+    whenever its proposal is valid; stop when every row has been written once.  The code starts with
+    `n1Rows k = max(k, 1)` unwritten rows (fix 65cd845; before: `k` rows, so no point at all for `k = 0`). -/
 def n1Loop (prop : Nat → List α) (ok : α → Bool) : Nat → Nat → List (Option α) → Option (Nat × List α)
   | fuel, rd, final =>
     if final.all Option.isSome then some (rd, final.filterMap id)
@@ -399,6 +398,8 @@ def n1Loop (prop : Nat → List α) (ok : α → Bool) : Nat → Nat → List (O
         let ps := prop rd
         let final' := (final.zip ps).map fun (old, p) => if ok p then some p else old
         if ps.length = final.length then n1Loop prop ok fuel (rd + 1) final' else none
+
+def n1Rows (k : Nat) : Nat := max k 1
 
 /-- D.2b `_random_boundary_points_if_n_eq_1`: alternate `∂A`, `∂B`; only rows not yet found are written -/
 def n1BdryLoop (propA propB : Nat → List α) (ok : α → Bool) : Nat → Nat → List (Option α) → Option (Nat × List α)
@@ -428,18 +429,22 @@ def accLoop (n : Nat) (prop : Nat → List α) (ok : α → Bool) (giveUp : Nat 
 def bdryProp (propA propB : Nat → Nat → List α) (reqA reqB : Nat) (rd : Nat) : List α :=
   if rd % 2 == 0 then propA rd reqA else propB rd reqB
 
-/-- D.3 `_inside_grid_with_n`; `topup m` = D.1 for the missing `m` points.  `none` where the code
-    raises (`ZeroDivisionError` when no grid point is valid). -/
+/-- D.3 `_inside_grid_with_n`; `topup m` = D.1 for the missing `m` points (`topup n` = all random when
+    no grid point is valid, fix b6d3b9c; before: `ZeroDivisionError`, see `gridInsideOld`). -/
 def gridInside (n : Nat) (gridA : Nat → List α) (ok : α → Bool) (topup : Nat → Option (List α)) : Option (Nat × List α) :=
   let g := gridA n
   let v := (g.filter ok).length
   if v = n then some (n, g)
-  else if v = 0 then none
+  else if v = 0 then (topup n).map fun r => (0, r)
   else
     let m := n * n / v
     let g2 := (gridA m).filter ok
     if n ≤ g2.length then some (m, g2.take n)
     else (topup (n - g2.length)).map fun r => (m, g2 ++ r)
+
+/-- D.3 before fix b6d3b9c: `int(n**2 / 0)` raises when no grid point is valid -/
+def gridInsideOld (n : Nat) (gridA : Nat → List α) (ok : α → Bool) (topup : Nat → Option (List α)) : Option (Nat × List α) :=
+  if ((gridA n).filter ok).length = 0 ∧ n ≠ 0 then none else gridInside n gridA ok topup
 
 /-- D.5 `_boundary_grid_with_n`; `scale a b` = the rescaled grid sizes (recorded: float32 surface
     estimates), `none` = `OverflowError` when nothing was accepted -/
@@ -448,6 +453,7 @@ def gridBdry (n : Nat) (gridA gridB : Nat → List α) (ok : α → Bool) (scale
   let a := (gridA n).filter ok
   let b := (gridB n).filter ok
   if a.length + b.length = n then some (a ++ b)
+  else if a.length + b.length = 0 then topup n          -- all random (fix b6d3b9c; before: OverflowError)
   else match scale a.length b.length with
     | none => none
     | some (sa, sb) =>
